@@ -649,7 +649,7 @@ class Expression:
     """A mathematical expression"""
 
     # let `ndarray <op> Expression` fall back to the reflected operators
-    __array_ufunc__ = None
+    __array_priority__ = 1000
 
     def __init__(self, function, arguments):
         self.function = function
